@@ -5,7 +5,7 @@
    C04/Spec.v.  [final valid h] is the machine state after the history h (any sequence of
    kernel events and psutil calls, any number of generators advanced in any interleaving),
    [irun valid h] the same with the per-generator ghost records. *)
-From PV Require Import Gen.C04_Tables C04.PyGen C04.ProofsGen C04.Spec C04.ProofsText C04.Proofs C04.ProofsTable C04.ProofsIter C04.ProofsStale C04.ProofsExact C04.Legacy.
+From PV Require Import Gen.C04_Tables C04.PyGen C04.ProofsGen C04.ProofsGenIter C04.Spec C04.ProofsText C04.Proofs C04.ProofsTable C04.ProofsIter C04.ProofsStale C04.ProofsExact C04.Legacy.
 
 (* ---- text level ---- *)
 
@@ -541,3 +541,39 @@ Theorem C04_gen_loop_is_model : forall t valid attrs rest x,
   run_for t valid attrs gen_iter_body x rest = gen_loop t valid attrs x rest.
 Proof. exact gen_loop_eq_model. Qed.
 Print Assumptions C04_gen_loop_is_model.
+
+(* the whole process_iter() step through the interpreters: next() on generator g -- on first entry the prologue program
+   read from the source (its _pids_reused and _LOWEST_PID written back; an exception there ends the generator without a
+   commit), then the loop program read from the source over the merged list, suspended at 'yield' or committing
+   'finally: _pmap = pmap' at the end -- is the model's IterNext step, for every state (process table, cache, reused set,
+   heap, generators), every generator index and every validity oracle; hence also for draining by any sequence of next(). *)
+Theorem C04_gen_process_iter_is_model : forall valid s g,
+  iter_next_gen valid gen_iter_prologue gen_iter_body s g = step valid s (IterNext g).
+Proof. exact gen_process_iter_eq_model. Qed.
+Print Assumptions C04_gen_process_iter_is_model.
+
+Theorem C04_gen_process_iter_drain_is_model : forall valid gs s,
+  fold_left (fun s g => fst (iter_next_gen valid gen_iter_prologue gen_iter_body s g)) gs s =
+  fold_left (fun s g => fst (step valid s (IterNext g))) gs s.
+Proof. exact gen_process_iter_drain_eq_model. Qed.
+Print Assumptions C04_gen_process_iter_drain_is_model.
+
+(* _psposix.pid_exists(): the try / except ladder around os.kill(pid, 0) read from the source answers False exactly when
+   os.kill raised ProcessLookupError (ESRCH) or OverflowError (pid beyond pid_t), True on success and on PermissionError
+   (EPERM), and never lets an exception out -- for every pid other than 0 and every outcome of os.kill. *)
+Theorem C04_gen_posix_pid_exists_answer : forall pid k, pid <> 0 ->
+  px_run gen_posix_pid_exists pid k = Val (match k with KEsrch | KOverflow => false | KOk | KEperm => true end).
+Proof. exact gen_posix_pid_exists_answer. Qed.
+Print Assumptions C04_gen_posix_pid_exists_answer.
+
+(* the model's _pslinux.pid_exists is 'False when the translated _psposix.pid_exists says False, else the Tgid check' *)
+Theorem C04_gen_posix_pid_exists_factors_model : forall pid k status names, pid <> 0 ->
+  pid_exists_linux pid k status names =
+  match px_run gen_posix_pid_exists pid k with
+  | Val false => Val false
+  | Val true => pid_exists_linux pid KOk status names
+  | Exc e => Exc e
+  | OutOfModel => OutOfModel
+  end.
+Proof. exact gen_posix_pid_exists_factors_model. Qed.
+Print Assumptions C04_gen_posix_pid_exists_factors_model.
